@@ -137,6 +137,12 @@ class Expander:
                 kv, _ = _parse_kv(toks[1:])
                 self.unit_props[toks[0]] = kv.get("props", "").split(",") if kv.get("props") else []
                 i += 1
+            elif d.startswith("opaque-when-imported"):
+                # the next spec fn is made opaque when this unit is only imported
+                # by contract (importers need it as a predicate, not its body)
+                if imported:
+                    self.lines.append(Line("#[verifier::opaque]", {"kind": "tmpl", "file": os.path.relpath(path, VERIF), "line": i + 1, "unit": cur_unit, "imported": imported}))
+                i += 1
             elif d.startswith("include "):
                 inc = d.split(None, 1)[1].strip()
                 if inc not in self.includes:
@@ -171,6 +177,9 @@ class Expander:
             else:
                 self._uses.add(key)
         org = {"kind": "tmpl", "file": os.path.relpath(path, VERIF), "line": lineno, "unit": unit, "imported": imported}
+        if imported and re.match(r"\s*(?:pub\s+)?(?:broadcast\s+)?proof\s+fn\s+\w+", line):
+            # a lemma of an imported unit is proved in its own unit; here it is imported by contract
+            self.lines.append(Line("#[verifier::external_body]", dict(org, kind="import")))
         self.lines.append(Line(line, org))
         m = re.match(r"\s*(?:pub\s+)?(?:broadcast\s+)?proof\s+fn\s+(\w+)", line)
         if m:
